@@ -627,6 +627,12 @@ func C13(p *core.Program, r *core.Report) {
 				}
 			}
 		}
+		// ... and it is used as parsed: nothing in ApplyForURL writes a part of it
+		for _, in := range instrsOf(au) {
+			if st, ok := in.(*ssa.Store); ok && strings.Contains(cn.Of(st.Addr), "url.Parse($0)#0") && !strings.HasSuffix(cn.Of(st.Addr), ".OriginalURL") {
+				bad = "store to " + cn.Of(st.Addr) + " at " + p.Pos(st.Pos())
+			}
+		}
 		r.Add("L7", "ApplyForURL: the page URL is the supplied string parsed as a URL (fragment-aware)", p.Pos(au.Pos()), n >= 1 && bad == "", fmt.Sprintf("%d stores to OriginalURL; other value: %s", n, bad))
 	}
 
